@@ -1226,6 +1226,14 @@ func replayCarriesDuplicateMID(e *Env, rule string) {
 	for _, c := range core.CallsNamedDeep(f, "udp/client.Conn.getResponseFromCache") {
 		hit, _ = c.(*ssa.Call)
 	}
+	if hit == nil {
+		// the wrapper written out: the load from the reply cache itself
+		for _, c := range core.Calls(f, func(n string, ci ssa.CallInstruction) bool {
+			return strings.HasSuffix(n, "MessageCache.Load") && strings.HasSuffix(tableOf(ci), ".responseMsgCache")
+		}) {
+			hit, _ = c.(*ssa.Call)
+		}
+	}
 	if hit == nil || req == nil {
 		e.R.Undecided(rule, q+":replay-mid", e.fpos(f), "no reply-cache lookup in this function")
 		return
@@ -1878,11 +1886,11 @@ func reassemblyLookupHonoursExpiry(e *Env, rule string) {
 // received – never by something the local side does (sending a ping, writing a request).
 func activityOnlyFromReceive(e *Env, rule string) {
 	allowed := map[string]string{
-		"tcp/client.Session.processBuffer":    "a frame was decoded from the stream",
-		"udp/client.Conn.handleReq":           "a request datagram is being handled",
-		"udp/client.Conn.Process":             "a datagram was received for this connection",
-		"udp/server.Server.getConn":           "a datagram arrived for this peer",
-		"net/monitor/inactivity.New":          "construction: the period starts now",
+		"tcp/client.Session.processBuffer":     "a frame was decoded from the stream",
+		"udp/client.Conn.handleReq":            "a request datagram is being handled",
+		"udp/client.Conn.Process":              "a datagram was received for this connection",
+		"udp/server.Server.getConn":            "a datagram arrived for this peer",
+		"net/monitor/inactivity.New":           "construction: the period starts now",
 		"net/monitor/inactivity.NewNilMonitor": "no-op monitor",
 	}
 	n, bad := 0, ""
@@ -1996,7 +2004,9 @@ func deliveredOnlyToLiveConn(e *Env, rule string) {
 		return
 	}
 	var chk *ssa.Call
-	for _, c := range core.Calls(f, func(n string, _ ssa.CallInstruction) bool { return strings.HasSuffix(n, "client.Conn.CheckExpirations") }) {
+	for _, c := range core.Calls(f, func(n string, _ ssa.CallInstruction) bool {
+		return strings.HasSuffix(n, "client.Conn.CheckExpirations")
+	}) {
 		chk, _ = c.(*ssa.Call)
 	}
 	if chk == nil {
